@@ -6,6 +6,8 @@ bounds; mappings in different orders, with duplicated rows and with a variable l
 each solved through OptimProblem.optimize by EVERY available solver choice and compared with the
 exact rational optimum (vertex enumeration, no solver). A second call after
 optimize(make_soft_problem=True) is part of the alphabet.
+Family 4 (E3): every sequence of <= 3 (thorough 4) one-variable intervals, from a menu with infeasible ones, as a
+SplitOptimProblem: success only if every interval is feasible, then x = concatenation of the exact interval optima.
 Family 2 (E1 problems): assembled portfolio problems (LP and MIP, mono and split) solved by every
 solver and checked against HiGHS on the raw arrays and against the rows themselves.
 """
@@ -25,7 +27,7 @@ RULE = ("family 1: product of row sets (<= 2 rows from 5 coefficient patterns x 
         "bound pairs x boolean flag sets x mapping variants x cost vectors x every available solver (LP: default, SCIPY, CLARABEL, SCS, "
         "OSQP; MIP: default, SCIPY, SCIP, and CLARABEL as a solver that cannot treat it) + the history [optimize(make_soft_problem=True), optimize()]; family 2: assembled "
         "problems of portfolio scenarios (mono and split, LP and MIP) x solvers, MIPs also relaxed with make_soft_problem; distinct = canonical problem; non-trivial = "
-        "feasible problem on which at least one solver reported success")
+        "feasible problem on which at least one solver reported success; family 4: every sequence of <= 3 (thorough 4) one-variable intervals from a menu of 5 (two infeasible) as a SplitOptimProblem x 3 solvers")
 ASSUMPTIONS = ["exact optimum by rational vertex enumeration (ref/exactlp.py) for the tiny family; HiGHS on the raw arrays for the assembled family",
                "a flagged variable is boolean ({0,1}) as in the cvxpy interface; the first mapping row of a variable carries the flag",
                "tolerances: 1e-6 for HiGHS/CLARABEL/SCIP results, 2e-3 for the first-order solvers SCS and OSQP",
@@ -441,8 +443,80 @@ def direct_status(c, l, u, A, b, types, solver):
         return "exception:" + type(e).__name__
 
 
+# ------------------------------------------------------------------------------ family 4: tiny split problems
+# every sequence of <= 3 (thorough 4) one-variable intervals from a menu that contains an infeasible one: a split problem succeeds
+# only if EVERY interval has a feasible point, and then returns the concatenation of the interval optima
+SPLIT_MENU = {  # name: (cost, l, u, row coefficient, rhs, type, exact x or None)
+    "maxL": (-1.0, 0.0, 1.0, 1.0, 0.5, "L", 1.0),
+    "infL": (-1.0, 0.0, 1.0, 1.0, 2.0, "L", None),
+    "capU": (-2.0, 0.0, 1.0, 1.0, 0.5, "U", 0.5),
+    "eqS": (1.0, 0.0, 1.0, 1.0, 0.25, "S", 0.25),
+    "infS": (1.0, 0.0, 1.0, 1.0, -0.5, "S", None),
+}
+
+
+def split_cases(tier):
+    out = []
+    names = sorted(SPLIT_MENU)
+    for k in range(1, (3 if tier == "quick" else 4) + 1):
+        for seq in itertools.product(names, repeat=k):
+            c = dict(kind="tinysplit", seq=list(seq))
+            c["key"] = chash(c)
+            out.append(c)
+    return out
+
+
+def run_tinysplit(case):
+    import scipy.sparse as sps
+    from eaopack.optimization import OptimProblem, SplitOptimProblem
+    res = dict(status="ok", violations=[], counters={})
+    V = res["violations"]
+    seq = case["seq"]
+    feasible = all(SPLIT_MENU[k][6] is not None for k in seq)
+    tags = ["tinysplit", "intervals:%d" % len(seq), "feasible" if feasible else "infeasible_interval:%d" % [SPLIT_MENU[k][6] is None for k in seq].index(True)]
+    outcomes = set()
+    for sv in (None, "SCIPY", "CLARABEL"):
+        ctag = ["solver:%s" % sv, "lp", "split"]
+        ops = []
+        for t, k in enumerate(seq):
+            co, lo, up, a, rhs, ty, _ = SPLIT_MENU[k]
+            m = pd.DataFrame({"asset": ["a"], "node": ["n"], "type": ["d"], "time_step": [t], "var_name": ["disp"]})
+            ops.append(OptimProblem(c=np.array([co]), l=np.array([lo]), u=np.array([up]), A=sps.lil_matrix(np.array([[a]])), b=np.array([rhs]), cType=ty, mapping=m))
+        mapping = pd.concat([o.mapping for o in ops], ignore_index=True)
+        try:
+            sp = SplitOptimProblem(ops, mapping)
+            r = sp.optimize() if sv is None else sp.optimize(solver=sv)
+        except Exception as e:
+            if feasible:
+                V.append(viol("c03.raises", "split problem %s solver=%s raises %s on a feasible problem" % (seq, sv, short_exc(e)), tags + ctag, ctag + ["raises", type(e).__name__]))
+            res["counters"]["split_raises"] = res["counters"].get("split_raises", 0) + 1
+            continue
+        res["counters"]["split_solves"] = res["counters"].get("split_solves", 0) + 1
+        if isinstance(r, str):
+            outcomes.add("failure")
+            if feasible:
+                V.append(viol("c03.false_failure", "split problem %s solver=%s reports %r although every interval is feasible" % (seq, sv, r), tags + ctag, ctag + ["false_failure"]))
+            continue
+        outcomes.add("success")
+        if not feasible:
+            V.append(viol("c03.false_success", "split problem %s solver=%s reports success (value %s, %d values) although an interval has no feasible point"
+                          % (seq, sv, getattr(r, "value", None), len(np.atleast_1d(r.x))), tags + ctag, ctag + ["false_success"]))
+            continue
+        xe = np.array([SPLIT_MENU[k][6] for k in seq], float)
+        ce = np.array([SPLIT_MENU[k][0] for k in seq], float)
+        x = np.atleast_1d(np.asarray(r.x, float))
+        if x.shape != xe.shape or not np.allclose(x, xe, atol=1e-5):
+            V.append(viol("c03.split_x", "split problem %s solver=%s returns x=%s, interval optima %s" % (seq, sv, np.round(x, 6).tolist(), xe.tolist()), tags + ctag, ctag + ["split_x"]))
+        elif abs(float(r.value) + float(ce @ xe)) > 1e-5:
+            V.append(viol("c03.value", "split problem %s solver=%s reports value %s, -c.x = %s" % (seq, sv, r.value, -float(ce @ xe)), tags + ctag, ctag + ["split_value"]))
+    res["nontrivial"] = True
+    res["outcome"] = ",".join(sorted(outcomes))
+    res["fingerprint"] = res["outcome"]
+    return res
+
+
 def build_cases(tier):
-    tiny = tiny_cases(tier) + scaled_cases(tier)
+    tiny = tiny_cases(tier) + scaled_cases(tier) + split_cases(tier)
     asm, st = assembled_cases(tier)
     stats = dict(explorer="E3 product (tiny problems) + E1 (assembled problems)", states=len(tiny) + len(asm),
                  transitions=len(tiny) * len(COSTS2) * 4 + st["transitions"],
@@ -455,4 +529,6 @@ def run_case(case):
         return run_tiny(case)
     if case.get("kind") == "scaled":
         return run_scaled(case)
+    if case.get("kind") == "tinysplit":
+        return run_tinysplit(case)
     return run_assembled(case)
